@@ -123,7 +123,7 @@ def judge(text):
         again = parse_cvss_from_text(text)
     except BaseException as e:  # noqa
         return "second call raised %s" % type(e).__name__, None
-    if len(again) != len(got) or any(x not in again for x in got):
+    if len(again) != len(got) or (any(x not in again for x in got) if len(got) <= 300 else set(again) != set(got)):
         return "a second call returned a different set of objects", None
     return None, (len(got), len(req))
 
